@@ -91,7 +91,10 @@ def directed_cases():
     # PluralityVeto starved
     out.append({"cfg": {"rule": "PluralityVeto", "m": 1, "tiebreak": None}, "profile": P(["A", "B", "C"], [B("A", 1)]), "tag": "dir-pv-starved"})
     out.append({"cfg": {"rule": "PluralityVeto", "m": 2, "tiebreak": None}, "profile": P(["A", "B", "C"], [B("ABC", 2), B("ACB", 1)]), "tag": "dir-pv-starved"})
-    # TopTwo single candidate
+    # PluralityVeto: score tiebreak on a working profile that contains an exhausted ballot
+    out.append({"cfg": {"rule": "PluralityVeto", "m": 1, "tiebreak": "first_place"},
+                "profile": P(["A", "B", "C"], [B("A", 1), canon.spec_ballot(r=[["C", "B"]], w=1)]), "tag": "dir-pv-tiebreak"})
+    # TopTwo single candidate (repaired: must not fail any more)
     out.append({"cfg": {"rule": "TopTwo", "tiebreak": None}, "profile": P(["A"], [B("A", 3)]), "tag": "dir-toptwo-single"})
     # Alaska whose STV stage needs a random elimination tie-break (replay re-draw)
     out.append({"cfg": {"rule": "Alaska", "m_1": 4, "m_2": 1, "quota": "droop", "sim": True, "transfer": "fractional", "tiebreak": "random"},
